@@ -119,7 +119,8 @@ Proof.
   - unfold parse_error in H. now inv_some.
   - inv_some. now rewrite surplus_tail_idle_flag.
   - destruct (n <? rem); inv_some; [reflexivity|].
-    destruct (p_cb _); [rewrite response_eof_idle_flag|]; (destruct (rem <? n); [now rewrite surplus_tail_idle_flag|reflexivity]).
+    destruct (rem <? n); [rewrite surplus_tail_idle_flag|]; cbn [s_idle_parsed set_conn set_s_conn];
+      (destruct (p_cb _); [now rewrite response_eof_idle_flag|reflexivity]).
 Qed.
 
 Lemma proc_tok_idle_flag cf s g tk tg s' g' : proc_tok cf s g tk tg = Some (s', g') -> s_idle_parsed s' = s_idle_parsed s.
